@@ -387,3 +387,27 @@ def generator_filter_loop(it, node, frame, seq):
     else:
         res.elt_it = lambda it2, i: getter(i)
     return res
+
+
+def permuted(it, src):
+    """sorted(<sequence of objects / tuples>): a permutation of the elements that pass the filter.  Only the permutation
+    property is assumed (ORG: output position -> input index is a bijection onto the passing indices); nothing about the order."""
+    it.path.assumed.add("sorted() returns a permutation of its input (every element exactly once); the order itself is not used")
+    L = it.path.fresh("plen", z3.IntSort())
+    org = z3.Function(_fresh("porg"), z3.IntSort(), z3.IntSort())
+    pos = z3.Function(_fresh("ppos"), z3.IntSort(), z3.IntSort())
+    a, j = z3.Int(_fresh("pa")), z3.Int(_fresh("pj"))
+    it.path.assume(z3.And(
+        L >= 0, L <= src.n,
+        z3.ForAll([a], z3.Implies(z3.And(0 <= a, a < L), z3.And(0 <= org(a), org(a) < src.n, src.cond(org(a)), pos(org(a)) == a))),
+        z3.ForAll([j], z3.Implies(z3.And(0 <= j, j < src.n, src.cond(j)), z3.And(0 <= pos(j), pos(j) < L, org(pos(j)) == j))),
+        # cardinality: when every input element passes the filter the output is as long as the input
+        z3.Implies(z3.ForAll([j], z3.Implies(z3.And(0 <= j, j < src.n), src.cond(j))), L == src.n),
+    ))
+    res = SFiltered(L, lambda i: z3.BoolVal(True), None, name="sorted(%s)" % src.name)
+    res.objects = True
+    get = src.elt_it if getattr(src, "elt_it", None) is not None else (lambda it2, i: src.elt(i))
+    res.elt_it = lambda it2, i: get(it2, org(to_int(i)))
+    res.org, res.pos, res.length_term = org, pos, L
+    it.path.ghost.setdefault("permuted", []).append(res)
+    return res
